@@ -1,8 +1,18 @@
 import EdpVerif.Lemmas.CmpSwap
+import EdpVerif.Lemmas.OrderTrans
+import EdpVerif.Lemmas.SortedInsert
+import EdpVerif.Lemmas.EqCmp
 /-
 C11 — term comparison is a lawful total preorder consistent with equality and hashing.
 `Term.cmp` is the model of `impl Ord for OwnedTerm` / `BorrowedTerm` (one Lean type for both; that they agree
-is a correspondence obligation checked on all pairs of the universe by the harness).
+is a correspondence obligation checked on all pairs of the universe by the harness); `Term.eqv` models the derived
+`PartialEq`, `Term.hashBytes` the byte stream `Hash::hash` writes (Impl/EqHash.lean, both tied by the harness).
+
+Guard `WFo`: every big integer in the term has minimal digits (no high-order zero digit).  The code compares two
+big integers by digit COUNT first (`compare_magnitudes`) but a big integer with a float by VALUE, and the decoder
+keeps the digits of SMALL_BIG_EXT/LARGE_BIG_EXT as they arrive, so without the guard the order is not
+transitive (`C11_not_transitive_nonminimal_big`).  Nothing else is assumed: NaN, infinities, -0.0, invalid UTF-8,
+unsorted maps, arbitrary `bits` fields are all covered.
 -/
 namespace Edp.Props.C11
 open Edp Edp.Term
@@ -23,5 +33,136 @@ theorem C11_rank_decides (a b : Term) (h : (norm a).rank ≠ (norm b).rank) :
   exact cmpN_of_rank_ne _ _ h
 
 example : (norm (.int 1)).rank ≠ (norm (.atom [97])).rank := by decide
+
+/-- reflexive, for every term (a NaN float compares Equal to itself) -/
+theorem C11_refl (a : Term) : Term.cmp a a = .eq := cmp_refl a
+
+/-- transitive: `a ≤ b` and `b ≤ c` give `a ≤ c`, for all terms whose big integers have minimal digits -/
+theorem C11_trans (a b c : Term) (ha : WFo a) (hb : WFo b) (hc : WFo c)
+    (h1 : Term.cmp a b ≠ .gt) (h2 : Term.cmp b c ≠ .gt) : Term.cmp a c ≠ .gt :=
+  cmp_trans_le ha hb hc h1 h2
+
+/-- the strict and equal variants -/
+theorem C11_trans_lt (a b c : Term) (ha : WFo a) (hb : WFo b) (hc : WFo c)
+    (h1 : Term.cmp a b = .lt) (h2 : Term.cmp b c = .lt) : Term.cmp a c = .lt := cmp_trans_lt_lt ha hb hc h1 h2
+theorem C11_trans_lt_eq (a b c : Term) (ha : WFo a) (hb : WFo b) (hc : WFo c)
+    (h1 : Term.cmp a b = .lt) (h2 : Term.cmp b c = .eq) : Term.cmp a c = .lt := cmp_trans_lt_eq ha hb hc h1 h2
+theorem C11_trans_eq_lt (a b c : Term) (ha : WFo a) (hb : WFo b) (hc : WFo c)
+    (h1 : Term.cmp a b = .eq) (h2 : Term.cmp b c = .lt) : Term.cmp a c = .lt := cmp_trans_eq_lt ha hb hc h1 h2
+theorem C11_trans_eq (a b c : Term) (ha : WFo a) (hb : WFo b) (hc : WFo c)
+    (h1 : Term.cmp a b = .eq) (h2 : Term.cmp b c = .eq) : Term.cmp a c = .eq := cmp_trans_eq_eq ha hb hc h1 h2
+
+/-- non-vacuity: nested terms with NaN, infinity, a big integer, an improper list and a map satisfy the guard -/
+example : WFo (.tuple [.float 0x7FF8000000000000, .float 0x7FF0000000000000, .big true [0, 1],
+    .ilist [.int 1] (.list [.int 2]), .map [(.float 0x3FF0000000000000, .nil), (.int 1, .atom [255])]]) = true := by
+  simp [WFo, WFoL, WFoKV, minDigits]
+example : Term.cmp (.int 1) (.big false [0, 1]) ≠ .gt ∧ Term.cmp (.big false [0, 1]) (.atom []) ≠ .gt := by
+  constructor <;> simp [Term.cmp, norm, cmpN, rank, cmpIntBig, natDigits_one] <;> decide
+
+/-- terms that compare Equal compare alike with every third term (the order is a congruence for its equivalence) -/
+theorem C11_eq_congr (a b c : Term) (ha : WFo a) (hb : WFo b) (hc : WFo c) (h : Term.cmp a b = .eq) :
+    Term.cmp a c = Term.cmp b c := by
+  cases h2 : Term.cmp b c with
+  | lt => exact cmp_trans_eq_lt ha hb hc h h2
+  | eq => exact cmp_trans_eq_eq ha hb hc h h2
+  | gt =>
+    have h3 : Term.cmp c b = .lt := (C11_lt_iff_gt c b).mpr h2
+    have h4 : Term.cmp b a = .eq := (C11_eq_symm a b).mp h
+    exact (C11_lt_iff_gt c a).mp (cmp_trans_lt_eq hc hb ha h3 h4)
+
+example : Term.cmp (.int 1) (.float 0x3FF0000000000000) = .eq := by
+  simp [Term.cmp, norm, cmpN, cmpIntFloat, natDigits_one]; decide
+
+/-- a lawful total preorder: reflexive, total and antisymmetric up to `Equal` (swap), transitive -/
+theorem C11_total_preorder :
+    (∀ a : Term, Term.cmp a a = .eq) ∧
+    (∀ a b : Term, Term.cmp a b = (Term.cmp b a).swap) ∧
+    (∀ a b c : Term, WFo a → WFo b → WFo c → Term.cmp a b ≠ .gt → Term.cmp b c ≠ .gt → Term.cmp a c ≠ .gt) ∧
+    (∀ a b c : Term, WFo a → WFo b → WFo c → Term.cmp a b = .eq → Term.cmp a c = Term.cmp b c) :=
+  ⟨C11_refl, C11_swap, fun a b c ha hb hc => C11_trans a b c ha hb hc, fun a b c ha hb hc => C11_eq_congr a b c ha hb hc⟩
+
+/-- the guard is needed: with a high-order zero digit (accepted by the decoder: `131,110,2,0,1,0`) the value 1 compares
+Equal to the float 1.0, which compares Equal to the minimal big integer 1, yet the two big integers are ordered by their
+digit counts — the code's order is not transitive on such terms -/
+theorem C11_not_transitive_nonminimal_big :
+    Term.cmp (.big false [1, 0]) (.float 0x3FF0000000000000) = .eq ∧
+    Term.cmp (.float 0x3FF0000000000000) (.big false [1]) = .eq ∧
+    Term.cmp (.big false [1, 0]) (.big false [1]) = .gt := by
+  refine ⟨?_, ?_, ?_⟩
+  · simp [Term.cmp, norm, cmpN]; decide
+  · simp [Term.cmp, norm, cmpN]; decide
+  · simp [Term.cmp, norm, cmpN, cmpSignedMag, signum, allZero, cmpMag, thenO]; decide
+
+/-- `a == b` (derived `PartialEq`) implies `cmp a b = Equal`, for all terms -/
+theorem C11_eq_cmp (a b : Term) (h : Term.eqv a b) : Term.cmp a b = .eq := cmp_of_eqv a b h
+
+example : Term.eqv (.tuple [.float 0, .pid ⟨[97], 1, 2, 3, some [9]⟩]) (.tuple [.float 0x8000000000000000, .pid ⟨[97], 1, 2, 3, none⟩]) = true := by
+  simp [Term.eqv, Term.eqvL, floatEq, pidEq, f64, F64.isNaN, F64.isZero]
+
+/-- the converse does not hold (and the property does not ask for it): `1` and `1.0` compare Equal but are not `==`;
+neither are a NaN and itself -/
+theorem C11_cmp_eq_not_eqv :
+    Term.cmp (.int 1) (.float 0x3FF0000000000000) = .eq ∧ Term.eqv (.int 1) (.float 0x3FF0000000000000) = false ∧
+    Term.cmp (.float 0x7FF8000000000000) (.float 0x7FF8000000000000) = .eq ∧
+    Term.eqv (.float 0x7FF8000000000000) (.float 0x7FF8000000000000) = false := by
+  refine ⟨?_, ?_, cmp_refl _, ?_⟩
+  · simp [Term.cmp, norm, cmpN, cmpIntFloat, natDigits_one]; decide
+  · simp [Term.eqv]
+  · simp [Term.eqv, floatEq, f64, F64.isNaN]
+
+/-- `a == b` implies equal hashes: the two terms feed the hasher the same byte stream -/
+theorem C11_eq_hash (a b : Term) (h : Term.eqv a b) : Term.hashBytes a = Term.hashBytes b := hashBytes_of_eqv a b h
+
+/-- ordered insertion (the model of `BTreeMap::insert` under this order) into strictly sorted keys: the keys stay strictly
+sorted (so no two stored keys compare Equal: no duplicates), no stored key is lost, the inserted key is found with the
+new value, and nothing else appears -/
+theorem C11_sorted_insert_sound (m : List (Term × Term)) (k v : Term) (hk : WFo k) (hm : ∀ p ∈ m, WFo p.1)
+    (hs : keysSorted m) :
+    keysSorted (mapInsert m k v) ∧
+    (∀ p ∈ m, ∃ q ∈ mapInsert m k v, q.1 = p.1) ∧
+    (∃ q ∈ mapInsert m k v, Term.cmp k q.1 = .eq ∧ q.2 = v) ∧
+    (∀ q ∈ mapInsert m k v, q ∈ m ∨ (Term.cmp k q.1 = .eq ∧ q.2 = v)) :=
+  ⟨mapInsert_sorted m k v hk hm hs, mapInsert_keeps m k v, mapInsert_finds m k v, mapInsert_mem m k v⟩
+
+example : keysSorted [(.int 1, .nil), (.atom [97], .nil)] := by
+  simp [keysSorted, Term.cmp, norm, cmpN, rank]; decide
+
+/-- strictly sorted keys hold no duplicates: two different positions never compare Equal -/
+theorem C11_sorted_no_duplicates (m : List (Term × Term)) (hs : keysSorted m) :
+    m.Pairwise (fun p q => Term.cmp p.1 q.1 ≠ .eq) :=
+  List.Pairwise.imp (fun h => by rw [h]; simp) hs
+
+/-- a collection built by inserting any sequence of entries is strictly sorted and contains a key Equal to every
+inserted key -/
+theorem C11_sorted_build (l : List (Term × Term)) (hl : ∀ p ∈ l, WFo p.1) :
+    keysSorted (l.foldl (fun m kv => mapInsert m kv.1 kv.2) []) ∧
+    ∀ p ∈ l, ∃ q ∈ l.foldl (fun m kv => mapInsert m kv.1 kv.2) [], Term.cmp p.1 q.1 = .eq := by
+  suffices H : ∀ (l acc : List (Term × Term)), (∀ p ∈ l, WFo p.1) → (∀ p ∈ acc, WFo p.1) → keysSorted acc →
+      keysSorted (l.foldl (fun m kv => mapInsert m kv.1 kv.2) acc) ∧
+      (∀ p ∈ acc, ∃ q ∈ l.foldl (fun m kv => mapInsert m kv.1 kv.2) acc, q.1 = p.1) ∧
+      ∀ p ∈ l, ∃ q ∈ l.foldl (fun m kv => mapInsert m kv.1 kv.2) acc, Term.cmp p.1 q.1 = .eq by
+    obtain ⟨h1, _, h3⟩ := H l [] hl (by simp) (by simp [keysSorted])
+    exact ⟨h1, h3⟩
+  intro l
+  induction l with
+  | nil => intro acc _ _ hs; exact ⟨hs, fun p hp => ⟨p, hp, rfl⟩, by simp⟩
+  | cons e r ih =>
+    intro acc hl hacc hs
+    have he : WFo e.1 := hl e (by simp)
+    have hr : ∀ p ∈ r, WFo p.1 := fun p hp => hl p (List.mem_cons_of_mem _ hp)
+    obtain ⟨s1, s2, s3⟩ := ih (mapInsert acc e.1 e.2) hr (mapInsert_wf acc e.1 e.2 he hacc)
+      (mapInsert_sorted acc e.1 e.2 he hacc hs)
+    simp only [List.foldl_cons]
+    refine ⟨s1, ?_, ?_⟩
+    · intro p hp
+      obtain ⟨q, hq, e1⟩ := mapInsert_keeps acc e.1 e.2 p hp
+      obtain ⟨q', hq', e2⟩ := s2 q hq
+      exact ⟨q', hq', e2.trans e1⟩
+    · intro p hp
+      rcases List.mem_cons.mp hp with rfl | hp
+      · obtain ⟨q, hq, e1, _⟩ := mapInsert_finds acc p.1 p.2
+        obtain ⟨q', hq', e2⟩ := s2 q hq
+        exact ⟨q', hq', by rw [e2]; exact e1⟩
+      · exact s3 p hp
 
 end Edp.Props.C11
